@@ -713,14 +713,16 @@ func (s *Session) evalCall(se *SpecEnv, x *SCall) Val {
 				tn = a.X.(*SIdent).Name + "." + a.Name
 			}
 			tt := types.NewPointer(s.resolveType(se.pkg, tn))
-			return boolVal(And(Not(Eq(v.T0(), I(0))), Eq(s.uf("typeof", SInt, v.T0()), s.typeTag(tt))))
+			return boolVal(And(Not(Eq(v.T0(), I(0))), Eq(s.uf("typeof", SInt, v.T0()), s.typeTag(tt)),
+				Eq(v.T0(), s.uf("mkiface", SInt, s.typeTag(tt), s.uf("payload", SInt, v.T0()))), Le(s.uf("payload", SInt, v.T0()), se.st.Top)))
 		case "zerotime":
 			return zeroVal(s.eng.typesPkg("time").Scope().Lookup("Time").Type())
 		case "istime": // interface value holds a time.Time (boxed copy, an object that already exists)
 			v := s.evalSpec(se, x.Args[0])
 			tt := s.eng.typesPkg("time").Scope().Lookup("Time").Type()
 			p := s.uf("payload", SInt, v.T0())
-			return boolVal(And(Not(Eq(v.T0(), I(0))), Eq(s.uf("typeof", SInt, v.T0()), s.typeTag(tt)), Gt(p, I(0)), Le(p, se.st.Top)))
+			return boolVal(And(Not(Eq(v.T0(), I(0))), Eq(s.uf("typeof", SInt, v.T0()), s.typeTag(tt)), Gt(p, I(0)), Le(p, se.st.Top),
+				Eq(v.T0(), s.uf("mkiface", SInt, s.typeTag(tt), p))))
 		case "tdiv": // Go's truncated integer division
 			a := s.evalSpec(se, x.Args[0]).T0()
 			b := s.evalSpec(se, x.Args[1]).T0()
@@ -760,7 +762,8 @@ func (s *Session) evalCall(se *SpecEnv, x *SCall) Val {
 				_ = un
 				specFail("typeis: use typeisptr for pointer types")
 			}
-			return boolVal(And(Not(Eq(v.T0(), I(0))), Eq(s.uf("typeof", SInt, v.T0()), s.typeTag(t))))
+			return boolVal(And(Not(Eq(v.T0(), I(0))), Eq(s.uf("typeof", SInt, v.T0()), s.typeTag(t)),
+				Eq(v.T0(), s.uf("mkiface", SInt, s.typeTag(t), s.uf("payload", SInt, v.T0()))), Le(s.uf("payload", SInt, v.T0()), se.st.Top)))
 		case "gocall": // gocall("pkg.Func", args...): the value the engine gives to a deterministic library call
 			name := x.Args[0].(*SStr).V
 			var args []T
@@ -778,6 +781,13 @@ func (s *Session) evalCall(se *SpecEnv, x *SCall) Val {
 				return boolVal(s.uf(name, SBool, args...))
 			}
 			return untypedInt(s.uf(name, SInt, args...))
+		case "gocallb": // boolean-valued variant of gocall
+			name := x.Args[0].(*SStr).V
+			var args []T
+			for _, a := range x.Args[1:] {
+				args = append(args, s.materialize(s.evalSpec(se, a)).L...)
+			}
+			return boolVal(s.uf("pure:"+name, SBool, args...))
 		case "uf": // uf("name", args...) : uninterpreted integer function (ghost abstraction)
 			name := x.Args[0].(*SStr).V
 			var args []T
